@@ -379,6 +379,20 @@ impl Drop for LinkerOutput<'_> {
     }
 }
 
+/// Escapes the characters of a file name that make would otherwise treat as syntax.
+fn escape_for_makefile(path: &str) -> String {
+    let mut escaped = String::with_capacity(path.len());
+    for ch in path.chars() {
+        match ch {
+            ' ' | '\t' | '#' => escaped.push('\\'),
+            '$' => escaped.push('$'),
+            _ => {}
+        }
+        escaped.push(ch);
+    }
+    escaped
+}
+
 /// Writes a dependency file in Makefile format.
 fn write_dependency_file(
     dep_file_path: &Path,
@@ -399,13 +413,17 @@ fn write_dependency_file(
             continue;
         }
 
-        let path_str = input_file.filename.display().to_string();
+        let path_str = escape_for_makefile(&input_file.filename.display().to_string());
         if seen.insert(path_str.clone()) {
             deps.push(path_str);
         }
     }
 
-    write!(writer, "{}:", output_path.display())?;
+    write!(
+        writer,
+        "{}:",
+        escape_for_makefile(&output_path.display().to_string())
+    )?;
 
     for dep in &deps {
         write!(writer, " {dep}")?;
